@@ -109,7 +109,7 @@ def scenario(B, G, kind, n, h, a=None, regions=None):
                         G.eq("%s.same_as_list[%d,%d]" % (tag, i, j), val[0], ref[0])
                         G.eq("%s.same_as_list'[%d,%d]" % (tag, i, j), val[1], ref[1])
             if first:
-                G.eq("%s.average_is_purity" % tag, tot, O.re(purity))
+                G.eq("%s.average_is_purity" % tag, tot, O.re(purity), tol=1e-9)  # sums of products of doubles: the replay is exact to ~1e-13
                 G.eq("%s.purity_is_real" % tag, O.im(purity), O.frac(0))
                 sums[tuple(A)] = tot
         if kind != "mixed":
